@@ -32,39 +32,48 @@ REGISTRY = dict(
     design="DESIGN.md §4 C19")
 
 
-def compile_once(erg, env, proj, seed, tag):
+def compile_in(d, erg, env, seed, tag):
+    """one `erg compile` of the project in directory d (the .pyc and the trace of the previous build are removed first)"""
+    tr = os.path.join(d, "trace.txt")
+    for f in os.listdir(d):
+        if f.endswith(".pyc") or f == "trace.txt":
+            os.remove(os.path.join(d, f))
+    r = R.erg_with_retry(erg, env, d, "compile", tr, seed)
+    pycs = {}
+    for f in sorted(os.listdir(d)):
+        if f.endswith(".pyc"):
+            pycs[f] = open(os.path.join(d, f), "rb").read()[16:].hex()
+    diags = sorted(l.rstrip() for l in r["err"].replace(d, "<D>").splitlines() if l.strip())
+    return {"seed": seed, "build": tag, "rc": r["rc"], "timeout": r["timeout"], "pyc": pycs, "diags": diags,
+            "trace": G.parse_trace(tr), "slow": r.get("slow", False)}
+
+
+def compile_many(env, proj, builds):
+    """all builds of one project, one after the other in the same directory: the same sources at the same paths
+    (the code objects carry the absolute source path, and hash-ordered collections are keyed by paths)"""
     d = tempfile.mkdtemp(prefix="c19-", dir=R.tmp_root())
     try:
         G.write_project(proj, d)
-        tr = os.path.join(d, "trace.txt")
-        r = R.erg_with_retry(erg, env, d, "compile", tr, seed)
-        pycs = {}
-        for f in sorted(os.listdir(d)):
-            if f.endswith(".pyc"):
-                # the code objects carry the absolute source path (co_filename): blank the temp directory, same length
-                pycs[f] = open(os.path.join(d, f), "rb").read()[16:].replace(d.encode(), b"D" * len(d.encode())).hex()
-        diags = sorted(l.rstrip() for l in r["err"].replace(d, "<D>").splitlines() if l.strip())
-        return {"seed": seed, "build": tag, "rc": r["rc"], "timeout": r["timeout"], "pyc": pycs, "diags": diags,
-                "trace": G.parse_trace(tr), "slow": r.get("slow", False)}
+        return [compile_in(d, erg, env, seed, tag) for tag, erg, seed in builds]
     finally:
         shutil.rmtree(d, ignore_errors=True)
 
 
+def compile_once(erg, env, proj, seed, tag):
+    return compile_many(env, proj, [(tag, erg, seed)])[0]
+
+
 def sample_of(p):
-    return {"kind": p["kind"], "imports": p["imports"], "consts": p["consts"], "defect": p.get("defect")}
+    return {"kind": p["kind"], "imports": p["imports"], "consts": p["consts"], "defect": p.get("defect"),
+            "lazy_entry": bool(p.get("lazy_entry"))}
 
 
 def build_all(ctx, ergs, env, projs, k):
-    jobs = []
+    plans = []
     for pi, p in enumerate(projs):
-        for tag, erg in ergs:
-            for j in range(k):
-                jobs.append((pi, tag, erg, 1000 * (pi + 1) + 17 * j + (0 if tag == "parallel" else 500) + ctx.seed % 97))
-    res = R.pmap(lambda a: compile_once(a[2], env, projs[a[0]], a[3], a[1]), jobs, workers=ctx.scale(6, 8))
-    per = [[] for _ in projs]
-    for (pi, tag, erg, seed), r in zip(jobs, res):
-        per[pi].append(r)
-    return per
+        plans.append([(tag, erg, 1000 * (pi + 1) + 17 * j + (0 if tag == "parallel" else 500) + ctx.seed % 97)
+                      for tag, erg in ergs for j in range(k)])
+    return R.pmap(lambda a: compile_many(env, a[0], a[1]), list(zip(projs, plans)), workers=ctx.scale(8, 10))
 
 
 def run(ctx):
@@ -92,7 +101,9 @@ def run(ctx):
     n = ctx.scale(7, 40)
     for i in range(n):
         p = G.gen_project(ctx.rng, kinds[i % len(kinds)], nmax=6)
-        if i % 2 == 1:
+        if i % 3 != 2:
+            p["lazy_entry"] = True      # the entry never looks at its last import: that module is joined by join_all only
+        if i % 2 == 1 or i % 3 == 0:
             p = G.add_defect(ctx.rng, p)
         projs.append(p)
     per = build_all(ctx, ergs, env, projs, k)
@@ -194,8 +205,7 @@ def replay(ctx, path):
     a, b = c.get("a", {"build": "parallel", "seed": 1}), c.get("b", {"build": "sequential", "seed": 2})
     differs = False
     for attempt in range(5):
-        ra = compile_once(ergs[a["build"]], env, p, a["seed"], a["build"])
-        rb = compile_once(ergs[b["build"]], env, p, b["seed"], b["build"])
+        ra, rb = compile_many(env, p, [(a["build"], ergs[a["build"]], a["seed"]), (b["build"], ergs[b["build"]], b["seed"])])
         pe, de = ra["pyc"] == rb["pyc"], ra["diags"] == rb["diags"]
         print("attempt %d: pyc_equal=%s diags_equal=%s rc=%s/%s" % (attempt, pe, de, ra["rc"], rb["rc"]))
         if not (pe and de):
